@@ -11,6 +11,7 @@ package main
 // the solver decides data-dependent branches and obligations along each of them.
 
 import (
+	"runtime/debug"
 	"fmt"
 	"go/types"
 	"strings"
@@ -126,6 +127,11 @@ func (s *Sched) body(g *Goroutine, f func()) {
 				return
 			}
 			// any path-ending condition ends the whole run
+			switch r.(type) {
+			case pathEnd, unsupportedErr, mergeAbort, engineErr:
+			default:
+				r = engineErr{r: r, stack: trimStack(debug.Stack()) + "\n  interpreting: " + strings.Join(s.c.stack(s.c.cur), " < ")}
+			}
 			s.endRun(r)
 			return
 		}
